@@ -387,25 +387,26 @@ func c03(args []string) {
 					}
 					if failed {
 						// the run must have failed in a command that could not read a file of a partially finalized task
-						out := r3.Output()
+						// (read from the command's own end event, not from the wording of the library's error message)
 						ok := false
-						if k := strings.Index(out, "Command failed!"); k >= 0 {
-							for _, tk := range strings.Fields(out[k:]) {
-								if strings.HasPrefix(tk, "i=") {
-									if col := strings.Index(tk, ":"); col > 0 {
-										f := mon.RootRel(root, vproto.NormIn(tk[col+1:]))
-										for _, pt := range partials {
-											for _, pf := range taskFiles(root, pt) {
-												if pf == f {
-													ok = true
-												}
-											}
-										}
+						for _, e := range r3.Trace {
+							if e.Ev != "end" || e.Status != 4 || !strings.HasPrefix(e.Note, "input unreadable: ") {
+								continue
+							}
+							in := strings.TrimPrefix(e.Note, "input unreadable: ")
+							if col := strings.Index(in, ": "); col > 0 {
+								in = in[:col]
+							}
+							f := mon.RootRel(root, vproto.NormIn(in))
+							for _, pt := range partials {
+								for _, pf := range taskFiles(root, pt) {
+									if pf == f {
+										ok = true
 									}
 								}
 							}
 						}
-						if !ok || !strings.Contains(out, "exit status 4") {
+						if !ok {
 							all = false
 						}
 					}
